@@ -61,6 +61,7 @@ class AbsInt:
     def __init__(self, on_stmt: Callable[[ast.stmt, dict], None] | None = None, calls: dict[str, Callable[..., Any]] | None = None):
         self.on_stmt = on_stmt
         self.calls = calls or {}
+        self.raised: list[ast.Raise] = []
         self.returns: list[Any] = []
 
     # ------------------------------------------------------------------ expressions
@@ -143,6 +144,8 @@ class AbsInt:
                 return a is b if (a is None or b is None) else self._eq(a, b)
             if isinstance(op, ast.IsNot):
                 return (a is not b) if (a is None or b is None) else (not self._eq(a, b))
+            if isinstance(op, (ast.Lt, ast.LtE, ast.Gt, ast.GtE)) and all(isinstance(x, (int, float)) and not isinstance(x, bool) for x in (a, b)):
+                return {ast.Lt: a < b, ast.LtE: a <= b, ast.Gt: a > b, ast.GtE: a >= b}[type(op)]
             if isinstance(op, (ast.In, ast.NotIn)) and isinstance(b, (dict, list, tuple, set, str)) and not isinstance(b, Rec):
                 try:
                     r = a in b
@@ -257,6 +260,7 @@ class AbsInt:
                 self.returns.append(self.ev(st.value, env) if st.value is not None else None)
                 return None
             elif isinstance(st, ast.Raise):
+                self.raised.append(st)
                 return None
             elif isinstance(st, (ast.For, ast.AsyncFor, ast.While)):
                 for n in ast.walk(st):
